@@ -26,6 +26,13 @@ Proof. unfold upper, lower, is_upper, is_lower. destruct ((65 <=? c) && (c <=? 9
     destruct ((97 <=? c) && (c <=? 122)) eqn:E2; lia.
   - reflexivity.
 Qed.
+Lemma lower_upper c : lower (upper c) = lower c.
+Proof.
+  unfold upper, lower, is_upper, is_lower. destruct ((97 <=? c) && (c <=? 122)) eqn:E.
+  - assert (H : (65 <=? c - 32) && (c - 32 <=? 90) = true) by lia. rewrite H.
+    destruct ((65 <=? c) && (c <=? 90)) eqn:E2; lia.
+  - reflexivity.
+Qed.
 Lemma upper_upper_alpha c : is_upper (upper c) = true -> is_alpha c = true.
 Proof.
   unfold upper, is_alpha, is_upper, is_lower. destruct ((97 <=? c) && (c <=? 122)) eqn:E.
@@ -128,7 +135,7 @@ Definition lx (cs : list Z) : option (token * list Z) :=
 Definition after_ok (t : token) (rest : list Z) : Prop :=
   match rest with c :: _ => clash_char t c = false | [] => True end.
 Definition fc_ok (f : fclass) (c : Z) : Prop :=
-  match f with FAlpha => is_alpha c = true | FDigit => is_digit c = true | FChar k => c = k end.
+  match f with FAlpha lc => is_alpha c = true /\ lower c = lc | FDigit => is_digit c = true | FChar k => c = k end.
 
 Lemma kw_of_spelling k : kw_of_word (kw_spelling k) = Some k.
 Proof. destruct k; vm_compute; reflexivity. Qed.
@@ -396,8 +403,10 @@ Proof.
   intros Hok Hs. destruct t; cbn [spell first_class] in *; try (subst sp; eexists; eexists; split; reflexivity).
   - assert (Hal : forallb is_alpha sp = true) by (apply upper_word; rewrite Hs; apply kw_spelling_upper).
     destruct sp as [|c s']; [exfalso; apply (kw_spelling_nonempty k); rewrite <- Hs; reflexivity|].
-    exists c, s'. split; [reflexivity|]. cbn [forallb] in Hal. apply andb_prop in Hal. apply Hal.
-  - destruct Hs as ((_ & Hf) & _). destruct sp as [|c s']; [contradiction|]. exists c, s'. split; [reflexivity|exact Hf].
+    exists c, s'. split; [reflexivity|]. cbn [forallb] in Hal. apply andb_prop in Hal. split; [apply Hal|].
+    cbn [map] in Hs. rewrite <- Hs. cbn [hd]. symmetry. apply lower_upper.
+  - destruct Hs as ((_ & Hf) & Hl). destruct sp as [|c s']; [contradiction|]. exists c, s'. split; [reflexivity|].
+    split; [exact Hf|]. rewrite <- Hl. reflexivity.
   - destruct Hs as (Hne & Hd & _). destruct sp as [|c s']; [congruence|]. exists c, s'. split; [reflexivity|].
     unfold digits_ok in Hd. cbn [forallb] in Hd. apply andb_prop in Hd. apply Hd.
   - destruct Hs as (ip & fp & -> & Hip & _ & _ & _ & Hl). destruct lead.
@@ -415,10 +424,10 @@ Proof. intros Hok Hs. destruct (spell_first t s Hok Hs) as (c & s' & -> & _). di
 
 Lemma clash_sound t f c : clash t f = false -> fc_ok f c -> clash_char t c = false.
 Proof.
-  destruct f as [| |k]; cbn [fc_ok].
-  - intros Hc Ha. pose proof (alpha_word c Ha) as Hw. pose proof (alpha_not_digit c Ha) as Hd.
+  destruct f as [lc| |k]; cbn [fc_ok].
+  - intros Hc (Ha & Hlc). pose proof (alpha_word c Ha) as Hw. pose proof (alpha_not_digit c Ha) as Hd.
     destruct t; cbn [clash clash_char] in *; try discriminate; try reflexivity; try exact Hd;
-      unfold is_alpha, is_upper, is_lower in Ha; lia.
+      try (unfold is_alpha, is_upper, is_lower in Ha; lia).
   - intros Hc Hd. pose proof (digit_word c Hd) as Hw.
     destruct t; cbn [clash clash_char] in *; try discriminate; try reflexivity; unfold is_digit in Hd; try lia.
     unfold lower, is_upper. destruct ((65 <=? c) && (c <=? 90)) eqn:E; lia.
@@ -451,8 +460,8 @@ Lemma spell_solid t s rest : tok_ok t = true -> spell t s -> after_ok t rest -> 
 Proof.
   intros Hok Hs Ha. destruct (spell_first t s Hok Hs) as (c & s' & E & Hc). subst s. cbn [app solid].
   assert (F : is_space c = false /\ c <> 59 /\ (c = 47 -> t = TSlash)).
-  { destruct (first_class t) as [| |k] eqn:Ef; cbn [fc_ok] in Hc.
-    - unfold is_alpha, is_upper, is_lower in Hc. unfold is_space. repeat split; try lia.
+  { destruct (first_class t) as [lc| |k] eqn:Ef; cbn [fc_ok] in Hc.
+    - destruct Hc as [Hc _]. unfold is_alpha, is_upper, is_lower in Hc. unfold is_space. repeat split; try lia.
     - unfold is_digit in Hc. unfold is_space. repeat split; try lia.
     - subst c. destruct t; cbn [first_class] in Ef; try (destruct lead); try (destruct dq); try discriminate;
         injection Ef as <-; repeat split; try reflexivity; try discriminate; try (intros; discriminate). }
